@@ -38,7 +38,10 @@ def run(ctx, chk):
             scheme_got = "sotdma" if any(k.startswith("#Sotdma") for k in rs) else ("itdma" if any(k.startswith("#Itdma") for k in rs) else None)
             mism = []
             for t in sorted(ts):
-                want = itu.COMM_SCHEME[t]
+                want = itu.COMM_SCHEME.get(t)
+                if want is None:
+                    mism.append("type%d-has-a-communication-state" % t)
+                    continue
                 if want == "sel":
                     g = o.guard.get(("bits", 148, 1))
                     if g is None or not g.is_single():
